@@ -23,18 +23,17 @@ theorem C16_ro_duration (vs : List StoryView) :
       if vs.all (fun v => v.duration.isSome) then some ((vs.map (fun v => v.duration.getD 0)).sum) else none :=
   ro_duration vs
 
-/-- C16: the offset table is the list of prefix sums of the durations, keyed by story ID -/
-theorem C16_offsets_prefix (ss : List Xml) (t : Nat) (tbl : List (Option String × Nat))
+/-- C16: the offset table is the list of prefix sums of the durations, by position -/
+theorem C16_offsets_prefix (ss : List Xml) (t : Nat) (tbl : List Nat)
     (h : storyOffsetsFrom ss t = .ok tbl) :
-    tbl.map (·.1) = ss.map (fun s => Xml.childText (some s) "storyID") ∧
-    tbl.map (·.2) = (List.range ss.length).map (fun k => t + prefixSum (durationsOf ss) k) :=
+    tbl = (List.range ss.length).map (fun k => t + prefixSum (durationsOf ss) k) :=
   offsets_prefix ss t tbl h
 
-/-- C16: with unique story IDs each story's offset is the sum of the durations before it -/
-theorem C16_offset_lookup (ss : List Xml) (tbl : List (Option String × Nat)) (h : storyOffsetsFrom ss 0 = .ok tbl)
-    (hn : (ss.map (fun s => Xml.childText (some s) "storyID")).Nodup) (k : Nat) (hk : k < ss.length) :
-    lookupLast tbl (Xml.childText (some ss[k]) "storyID") = some (prefixSum (durationsOf ss) k) :=
-  offset_lookup ss tbl h hn k hk
+/-- C16: each story's offset is the sum of the durations before it - whether or not story IDs repeat -/
+theorem C16_offset_lookup (ss : List Xml) (tbl : List Nat) (h : storyOffsetsFrom ss 0 = .ok tbl)
+    (k : Nat) (hk : k < ss.length) :
+    tbl[k]? = some (prefixSum (durationsOf ss) k) :=
+  offset_lookup ss tbl h k hk
 
 theorem C16_offsets_monotone (ds : List (Option Nat)) (k k' : Nat) (h : k ≤ k') :
     prefixSum ds k ≤ prefixSum ds k' := prefixSum_mono ds k k' h
@@ -57,7 +56,7 @@ theorem C16_story_end (s : Xml) (ps off r : Option Nat) (h : storyEnd s ps off =
   story_end_spec s ps off r h
 
 /-- C16, all relations at once, in every state in which the accessors return (hence, by C15, in
-    every state reached by any sequence of merges): durations, offsets = prefix sums (unique IDs),
+    every state reached by any sequence of merges): durations, offsets = prefix sums (repeated IDs or not),
     starts, ends, running-order duration = sum, running order ends when its last story ends. -/
 theorem C16_view_consistent (d : Xml) (v : RoView) (h : roView d = .ok v) :
     ∃ rc, rcOf d = some rc ∧ v.stories.length = (rc.findall "story").length ∧
@@ -65,8 +64,7 @@ theorem C16_view_consistent (d : Xml) (v : RoView) (h : roView d = .ok v) :
       v.duration = (if v.stories.all (fun s => s.duration.isSome)
                     then some ((v.stories.map (fun s => s.duration.getD 0)).sum) else none) ∧
       v.stories.map (·.duration) = durationsOf (rc.findall "story") ∧
-      (((rc.findall "story").map (fun s => Xml.childText (some s) "storyID")).Nodup →
-        ∀ k (hk : k < v.stories.length), (v.stories[k]).offset = some (prefixSum (durationsOf (rc.findall "story")) k)) ∧
+      (∀ k (hk : k < v.stories.length), (v.stories[k]).offset = some (prefixSum (durationsOf (rc.findall "story")) k)) ∧
       (∀ k (hk : k < v.stories.length) (hk' : k < (rc.findall "story").length),
         storyStart ((rc.findall "story")[k]) v.start (v.stories[k]).offset = .ok (v.stories[k]).start ∧
         storyEnd ((rc.findall "story")[k]) v.start (v.stories[k]).offset = .ok (v.stories[k]).stop) :=
